@@ -53,7 +53,7 @@ def main():
                 ctx.model_ok = False
         else:
             # 3. audit
-            hits = ctx.lean.grep_forbidden(getattr(mod, "ALLOW_BV", ()))
+            hits = ctx.lean.grep_forbidden(mod.LEAN_MODULES, getattr(mod, "ALLOW_BV", ()))
             if hits:
                 ctx.broken.append("forbidden tokens: " + "; ".join(hits[:5]))
             aok, axioms, problems = ctx.lean.audit(pid, mod.LEAN_MODULES, mod.THEOREMS,
